@@ -56,7 +56,7 @@ class unix_disabled(uh.ifc.DisabledHash, uh.MinimalHandler):
     def using(cls, marker=None, **kwds):
         subcls = super().using(**kwds)
         if marker is not None:
-            if not cls.identify(marker):
+            if not marker or not cls.identify(marker):
                 raise ValueError(f"invalid marker: {marker!r}")
             subcls.default_marker = marker
         return subcls
